@@ -947,6 +947,10 @@ class JSExec(GoExec, SpecMixin, CallsMixin):
                     return MaybeNaN(v if self.mode != 'bv' else z3.Int2BV(v, 64), z3.Not(inr))
                 if mname == 'substring':
                     lo, hi = self.ev(st, args[0]), self.ev(st, args[1])
+                    if isinstance(hi, OptNum):            # substring(lo, undefined) runs to the end of the string (ECMA-262 22.1.3.25)
+                        hi = z3.If(hi.undef, obj.len, hi.val)
+                    elif isinstance(hi, JSUndef):
+                        hi = obj.len
                     # String.prototype.substring clamps and swaps; contracts only call it with 0 <= lo <= hi <= length
                     self.oblige(st, 'substring-args@%s' % line, z3.And(0 <= lo, lo <= hi, hi <= obj.len), src=line)
                     return StrV(obj.arr, obj.off + lo, hi - lo)
